@@ -94,7 +94,7 @@ class XWiki20Renderer(BaseRenderer):
         return template.format(level='=' * token.level, inner=inner) + self._block_eol(token)
 
     def render_quote(self, token):
-        self.lastChildOfQuotes.append(token.children[-1])
+        self.lastChildOfQuotes.append(token.children[-1] if token.children else None)
         inner = self.render_inner(token)
         del (self.lastChildOfQuotes[-1])
 
@@ -133,7 +133,7 @@ class XWiki20Renderer(BaseRenderer):
         if '1' in self.listTokens:
             prefix += '.'
 
-        self.firstChildOfListItems.append(token.children[0])
+        self.firstChildOfListItems.append(token.children[0] if token.children else None)
         inner = self.render_inner(token)
         del (self.firstChildOfListItems[-1])
 
